@@ -119,6 +119,25 @@ impl VisitMut for Passes {
     fn visit_attributes_mut(&mut self, attrs: &mut Vec<Attribute>) {
         attrs.clear();
     }
+    fn visit_local_mut(&mut self, l: &mut Local) {
+        visit_mut::visit_local_mut(self, l);
+        // R-MAPCOLLECT result bound by `let x: Vec<T> = ...`: give the accumulator the declared type (invariants may index it)
+        if let Pat::Type(pt) = &l.pat {
+            let ty = (*pt.ty).clone();
+            if norm(&ty).starts_with("Vec<") {
+                if let Some(init) = &mut l.init {
+                    if let Expr::Block(b) = &mut *init.expr {
+                        if let Some(Stmt::Local(first)) = b.block.stmts.first_mut() {
+                            if norm(first) == "letmutv_acc=Vec::new();" {
+                                let st: Stmt = parse_quote!( let mut v_acc: #ty = Vec::new(); ); *first = st.into_local();
+                                self.log.push("R-MAPCOLLECT accumulator typed from the enclosing let".to_string());
+                            }
+                        }
+                    }
+                }
+            }
+        }
+    }
     fn visit_expr_mut(&mut self, e: &mut Expr) {
         // post-order
         visit_mut::visit_expr_mut(self, e);
@@ -385,6 +404,8 @@ impl VisitMut for OpaqueVisitor {
         visit_mut::visit_local_mut(self, l);
     }
 }
+trait IntoLocal { fn into_local(self) -> Local; }
+impl IntoLocal for Stmt { fn into_local(self) -> Local { match self { Stmt::Local(l) => l, _ => panic!("not a local") } } }
 struct VecRepeat { elem: Expr, len: Expr }
 impl syn::parse::Parse for VecRepeat {
     fn parse(input: syn::parse::ParseStream) -> Result<Self> {
